@@ -69,8 +69,17 @@ impl VSeq for &[u8] { type E = u8; open spec fn vs(&self) -> Seq<u8> { self@ } }
 impl VSeq for Vec<u8> { type E = u8; open spec fn vs(&self) -> Seq<u8> { self@ } }
 impl VSeq for &str { type E = char; open spec fn vs(&self) -> Seq<char> { self@ } }
 impl VSeq for String { type E = char; open spec fn vs(&self) -> Seq<char> { self@ } }
+impl VSeq for DigestOut { type E = u8; open spec fn vs(&self) -> Seq<u8> { self.bytes@ } }
 #[verifier::external_body]
 pub fn veq<A: VSeq, B: VSeq<E = A::E>>(a: &A, b: &B) -> (r: bool) ensures r == (a.vs() == b.vs()) { unimplemented!() }
+/// R44: `a.iter().zip(b.iter()).all(|(x, y)| x == y)` and the branch-free fold `.fold(0, |acc, (x, y)| acc | (x ^ y)) == 0`:
+/// `zip` stops at the SHORTER operand, so these compare the common prefix only
+#[verifier::external_body]
+pub fn zip_all_eq<A: VSeq, B: VSeq<E = A::E>>(a: &A, b: &B) -> (r: bool)
+    ensures
+        r == (forall|i: int| 0 <= i < a.vs().len() && i < b.vs().len() ==> a.vs()[i] == b.vs()[i]),
+        a.vs().len() == b.vs().len() ==> r == (a.vs() =~= b.vs()),
+{ unimplemented!() }
 /// `DigestAlgorithm::from_u32` (num_traits::FromPrimitive derive): the numeric map of
 /// src/constants.rs; K:k_digest_algo checks it against the real enum for every u32.
 impl DigestAlgorithm {
